@@ -78,6 +78,8 @@ def _dispatch(model: Model):
             t = c.args[1]
             if isinstance(t, ast.Name) and len(defs.get(t.id, [])) == 1:
                 t = defs[t.id][0]
+            elif isinstance(t, ast.Name) and not defs.get(t.id) and t.id in fwd.module.assigns:
+                t = fwd.module.assigns[t.id]                      # a module-level table
             table = dict_literal_entries(t)
     if not table:
         raise AnchorError("dispatch table of _SolveIVP.forward not found")
@@ -345,6 +347,15 @@ class _ErkModel:
                 raise Uninterpretable("user function called outside the step loops")
             self.calls.append((c, tuple(fr.loop_syms), tm, st, rest))
             return fr.atom("K", (S(fr.loop_syms[-1]),))
+        if isinstance(c.func, ast.Attribute) and c.func.attr in ("clone", "contiguous", "to", "type", "float", "double", "half", "detach", "cpu", "cuda"):
+            try:
+                recv = fr.ev(c.func.value)
+            except Uninterpretable:
+                recv = None
+            if isinstance(recv, Rat):
+                if c.func.attr in ("clone", "contiguous"):
+                    return recv                                   # same values
+                return fr.atom("@%s" % c.func.attr, (recv,))      # a conversion: possibly other values (dtype / graph)
         if fn in ("torch.stack",) and c.args:
             v = fr.ev(c.args[0])
             dim = [k.value for k in c.keywords if k.arg == "dim"] or list(c.args[1:2])
@@ -1529,6 +1540,28 @@ def rules(model: Model, tier: str) -> List[RuleResult]:
         D.ok(ra.fq, "_rk_adaptive builds cls(atol=atol, rtol=rtol), sets it up with (fcn, ts, y0, params) and returns solve()")
     else:
         D.bad(ra, ra.node, "_rk_adaptive must hand the requested atol/rtol to the solver and run setup(fcn, ts, y0, params); solve()")
+    # the tolerances the controller reads are the caller's, unmodified
+    cls0 = model.cls(ARK, "RKAdaptiveStepSolver")
+    n_tol = 0
+    for mth in cls0.methods.values():
+        for st_ in own_nodes(mth.node):
+            if isinstance(st_, ast.Assign):
+                for tg_ in st_.targets:
+                    if isinstance(tg_, ast.Attribute) and isinstance(tg_.value, ast.Name) and tg_.value.id == "self" and tg_.attr in ("atol", "rtol"):
+                        n_tol += 1
+                        v_ = st_.value
+                        while isinstance(v_, ast.Call) and ast.unparse(v_.func) in ("float", "torch.as_tensor", "torch.tensor") and len(v_.args) == 1:
+                            v_ = v_.args[0]
+                        if mth.name == "__init__" and isinstance(v_, ast.Name) and v_.id == tg_.attr and v_.id in mth.params():
+                            X.ok(mth.fq, "self.%s is the caller's %s" % (tg_.attr, tg_.attr))
+                        else:
+                            X.bad(mth, st_, "the controller's %s must be the value the caller requested; `%s` alters it (a floor / cap / rescaling silently changes the "
+                                  "accuracy that was asked for)" % (tg_.attr, norm_stmt(st_, 80)))
+    if n_tol < 2:
+        raise AnalysisError("C07-X: RKAdaptiveStepSolver no longer stores atol and rtol")
+    from .c18 import _get_method as _lookup_rule
+    Gm = RuleResult(PROP, "C07-G", "the method name is resolved by an exact (case-insensitive) table lookup: a name selects its own scheme, never a neighbour", min_instances=2)
+    _lookup_rule(model, Gm)
     _erk_roles(model, R, Z, I)
     rm = _rkstep_roles(model, R)
     # stage loop of rk_step covers every row of A and C
@@ -1548,4 +1581,4 @@ def rules(model: Model, tier: str) -> List[RuleResult]:
         _fc = _ac.get_fncls(model, _cn)
         _ac.ac11_wrapper_returns(model, _fc, _R11)
         _ac.ac11_forward_provenance(model, _fc, _R11)
-    return [T, N, D, R, X, L, Z, I, V, P, _R11]
+    return [T, N, D, R, X, L, Z, I, V, P, _R11, Gm]
